@@ -20,3 +20,14 @@ Definition codegen (d: dir) (S: sources) (An T O e: kv) : res kv :=
   | De => unpack_type_with_overridden_deserialization (enc_dialect (t_call S)) (enc_cfg S) (enc_dialect (t_dflt S)) (enc_meta S) An T O e
   end.
 
+
+(* ---- Registry.get: the ValueSpec as a namespace, and the first handler applied to the prepared spec ---- *)
+Definition mk_spec (t o a: kv) : kv :=
+  KNs [("type", t); ("origin_type", o); ("annotated_type", a)]%string.
+
+Definition first_handler (d: dir) (S: sources) (rt org: kv -> kv) (isann: kv -> bool) (spec e: kv) : res kv :=
+  sp <- registry_prepare rt org isann spec ;;
+  a <- k_getattr2 sp (KStr "annotated_type") ;;
+  t <- k_getattr2 sp (KStr "type") ;;
+  o <- k_getattr2 sp (KStr "origin_type") ;;
+  codegen d S a t o e.
